@@ -311,3 +311,71 @@ Theorem mv_encoding_sound : forall vs : list nat,
   ValuesProofs.sum_consumer (ValuesModel.cwv_args (ValuesModel.cont_deliver (map ValuesModel.MObj vs))) = list_sum vs.
 Proof. exact ValuesProofs.mv_encoding_sound_lemma. Qed.
 Print Assumptions mv_encoding_sound.
+
+(** ------------------------------------------------------------------------------------------------ wind algebra *)
+From ChibiV Require Import C06.WindAlgebra.
+
+(** escape and re-entry are mirror images: going back runs the befores of exactly the extents whose afters ran (and
+    vice versa), in the opposite order *)
+Theorem wind_script_reverse : forall h here target,
+  wind_script h target here = rev (map flip_wev (wind_script h here target)).
+Proof. exact wind_script_reverse_lemma. Qed.
+Print Assumptions wind_script_reverse.
+
+(** the regenerated travel-to-point! runs no thunk when a continuation is invoked from inside its own extent *)
+Theorem travel_self_noop : forall h fuel p, travel_to_point h (S fuel) p p = Some [].
+Proof. exact travel_self_noop_lemma. Qed.
+Print Assumptions travel_self_noop.
+
+(** round trip of the regenerated travel-to-point!: both directions terminate, and the way back is the mirror script *)
+Theorem travel_round_trip : forall h, wf_heap h -> forall a b, a < length h -> b < length h ->
+  exists s, travel_to_point h (travel_fuel h a b) a b = Some s /\
+            travel_to_point h (travel_fuel h b a) b a = Some (rev (map flip_wev s)).
+Proof. exact travel_round_trip_lemma. Qed.
+Print Assumptions travel_round_trip.
+
+(** the net number of extents entered by a wind script equals the depth difference of the two points (the bookkeeping
+    (%dk point) relies on) *)
+Theorem wind_script_depth_balance : forall h here target,
+  wf_heap h -> here < length h -> target < length h ->
+  let s := wind_script h here target in
+  depth h here + length (filter is_in s) = depth h target + length (filter (fun w => negb (is_in w)) s).
+Proof. exact wind_script_depth_balance_lemma. Qed.
+Print Assumptions wind_script_depth_balance.
+
+From ChibiV Require Import C06.ParamEnc.
+(** one parameterize form with several bindings, printed from nested DSL bindings whose value expression reads the other parameter: the value is the one OUTSIDE the form (R7RS 4.2.6), i.e. the print-level encoding of simultaneous binding is sound *)
+Theorem parameterize_simultaneous : forall s a b c body k,
+  st s = Running -> ctl s = CEval (Parameterize a (PRef b) (Parameterize b (Const c) body)) -> kont s = k ->
+  let old := lookup_param b (params s) in
+  let s4 := iter_step 6 s in
+  ctl s4 = CEval body /\ st s4 = Running /\
+  params s4 = BParam b c :: BParam a old :: params s /\
+  out s4 = (10 + b, old) :: out s /\
+  kont s4 = FWindExit (S (length (hp s))) (length (hp s)) [ASetParams (BParam a old :: params s)]
+              :: FWindExit (length (hp s)) (dk s) [ASetParams (params s)] :: k /\
+  (a <> b -> lookup_param a (params s4) = old /\ lookup_param b (params s4) = c).
+Proof. exact parameterize_simultaneous_lemma. Qed.
+Print Assumptions parameterize_simultaneous.
+
+From ChibiV Require Import C06.ThrowAlgebra.
+(** jumping back between two continuations runs the mirror script: the afters/befores of the same dynamic-wind frames, flipped and in reverse order *)
+Theorem frames_script_reverse : forall k1 k2,
+  frames_script k2 k1 = rev (map flip_wev (frames_script k1 k2)).
+Proof. exact frames_script_reverse_lemma. Qed.
+Print Assumptions frames_script_reverse.
+
+(** two continuations with the same dynamic-wind frames are in the same dynamic extent: the wind script between them is empty *)
+Theorem frames_script_same_extent : forall k1 k2,
+  kont_winds k1 = kont_winds k2 -> frames_script k1 k2 = [].
+Proof. exact frames_script_same_extent_lemma. Qed.
+Print Assumptions frames_script_same_extent.
+
+(** invoking a continuation that lies in the same dynamic extent as the current one (plain escape with no dynamic-wind in between, generator re-entry inside one extent) runs NO before/after thunk and leaves the parameters and the trace alone *)
+Theorem machine_throw_same_extent_silent : forall s idx v kk pt,
+  reachable s -> nth_error (conts s) idx = Some (kk, pt) ->
+  kont_winds kk = kont_winds (kont s) ->
+  do_throw travel_to_point s idx v =
+    mkS (CRet v) kk (kont_point kk) (params s) (hp s) (conts s) (slots s) (counts s) (out s) (st s).
+Proof. exact machine_throw_same_extent_silent_lemma. Qed.
+Print Assumptions machine_throw_same_extent_silent.
